@@ -13,6 +13,11 @@ Streams
                       divisor batch size (and some non-divisors), all five loss types; the batches
                       visited inside `reconstruct` vs the model's schedule
   determinism bitwise same seed twice / same object after `reset=True` → identical iter_losses
+  (history)           every later reset of a history is requested through one of the public routes — reconstruct(reset=True),
+                      reset_recon() then reconstruct(), Ptychography.from_ptychography(pt) then reconstruct() on the clone —
+                      and the settings reach the object through alternative entry points (rng by constructor or setter,
+                      val_ratio/val_mode by preprocess() or attributes, batch size by argument or attribute); all must
+                      reproduce the first run and a canonically built fresh object
   history     bitwise seeds: small, >= 2**32, >= 2**64, 128-bit, as int / np.random.Generator / torch.Generator; first run of
                       a fresh object with AND without reset;
                       one object: run(reset=True); continue without reset (1 and 2 iterations); run(reset=True)
@@ -35,7 +40,7 @@ import math
 LEVEL = "proof"
 MANIFEST_ENTRY = {
     "category": "proof",
-    "text": "Lean 4 theorems over an executable model of SimpleBatcher / subdivide_batches / the batch-fraction scaling of error_estimate (the RNG's permutations are inputs, so all shuffles are covered): train/val split is a partition for every n, n_val, grid step, mode and permutation; every epoch yields each training index exactly once for every batch size >= 1; number of batches yielded = ceil(|train|/b) = __len__; i-th batch = order[i*b:(i+1)*b]; validation pass likewise; subdivide_batches sizes sum to n, differ by <= 1, respect max_batch, generate_batches ranges tile [start,start+n); over R the mean of batch losses (and, over any field/vector space, of any additive per-pattern quantity such as gradients) equals the full-batch value when b | n, with a counterexample for b not dividing n; user supplied train/val lists that are a partition satisfy every schedule clause (only one list given raises); a state-machine model of reconstruct/reset_recon/_reset_rng (generator = seed + call position with an arbitrary draw oracle, arbitrary numerical step function): every recorded epoch loss is the sum over the yielded batches divided by their number for every b >= 1 (also non-dividing), validation losses are recorded once per iteration iff the validation set is non-empty, and reconstruct(reset=True) after ANY history of calls on a seeded object returns exactly the state, loss history and schedule of the fresh object (same_seed_same_run, reset_run_independent_of_history); a session model of the validating setters (batch_size, val_ratio, val_mode, rng): a rejected configuration call stores nothing and the next run is the run the object would have made without it (rejected_call_is_noop, run_after_rejected_call). Tied to the code on every run by exact enumeration of the real SimpleBatcher/subdivide_batches and by per-batch losses/gradients recorded inside the real Ptychography.reconstruct loop on tiny problems.",
+    "text": "Lean 4 theorems over an executable model of SimpleBatcher / subdivide_batches / the batch-fraction scaling of error_estimate (the RNG's permutations are inputs, so all shuffles are covered): train/val split is a partition for every n, n_val, grid step, mode and permutation; every epoch yields each training index exactly once for every batch size >= 1; number of batches yielded = ceil(|train|/b) = __len__; i-th batch = order[i*b:(i+1)*b]; validation pass likewise; subdivide_batches sizes sum to n, differ by <= 1, respect max_batch, generate_batches ranges tile [start,start+n); over R the mean of batch losses (and, over any field/vector space, of any additive per-pattern quantity such as gradients) equals the full-batch value when b | n, with a counterexample for b not dividing n; user supplied train/val lists that are a partition satisfy every schedule clause (only one list given raises); a state-machine model of reconstruct/reset_recon/_reset_rng (generator = seed + call position with an arbitrary draw oracle, arbitrary numerical step function): every recorded epoch loss is the sum over the yielded batches divided by their number for every b >= 1 (also non-dividing), validation losses are recorded once per iteration iff the validation set is non-empty, and reconstruct(reset=True) after ANY history of calls on a seeded object returns exactly the state, loss history and schedule of the fresh object (same_seed_same_run, reset_run_independent_of_history); every entry point of a reset is the same operation (reset_routes_agree: reconstruct(reset=True) = reset_recon(); reconstruct(reset=False), also after any history); a session model of the validating setters (batch_size, val_ratio, val_mode, rng): a rejected configuration call stores nothing and the next run is the run the object would have made without it (rejected_call_is_noop, run_after_rejected_call). Tied to the code on every run by exact enumeration of the real SimpleBatcher/subdivide_batches and by per-batch losses/gradients recorded inside the real Ptychography.reconstruct loop on tiny problems.",
     "note": "Proved: partition, exactly-once, counts, contiguity, loss/gradient scaling algebra. Measured only (real runs, tiny problems, autograd=True, CPU float32): equality of mean per-batch loss/gradients with the full batch for every divisor batch size and all five loss types, and bitwise identical loss histories for equal seeds / after reset=True. Trusted: NumPy Generator determinism (twin generator reproduces the drawn permutations), torch autograd. The analytic-gradient path (autograd=False) normalises each batch by its own probe overlap and is only measured, not judged.",
     "technique": "Lean 4 proof (induction over batches, permutation/partition lemmas, field algebra) + model-vs-implementation correspondence",
 }
@@ -415,11 +420,23 @@ def gen_numeric_cfg(rng, i):
             "val_ratio": val[0], "val_mode": val[1], "obj_type": rng.weighted([("complex", 3), ("pure_phase", 1), ("potential", 1)])}
 
 
-def build(cfg):
+def build(cfg, canonical=False):
+    """the object of a configuration.  Alternative entry points of the same settings (unless `canonical`):
+    rng_route "setter": built with another seed, then `p.rng = <seed in its form>`; val_route "attribute": preprocessed with
+    val_ratio 0, then `p.val_ratio = …; p.val_mode = …`.  All must behave like constructor / preprocess arguments."""
     from props import ptycho_tiny as pt
-    return pt.make_ptycho(scan=tuple(cfg["scan"]), roi=tuple(cfg["roi"]), seed=cfg["seed"], rng_seed=cfg["rng_seed"], rng_form=cfg.get("rng_form", "int"),
-                          num_probes=cfg["num_probes"], obj_type=cfg["obj_type"], obj_init=cfg["obj_init"],
-                          val_ratio=cfg["val_ratio"], val_mode=cfg["val_mode"])
+    rng_route = "constructor" if canonical else cfg.get("rng_route", "constructor")
+    val_route = "preprocess" if canonical else cfg.get("val_route", "preprocess")
+    p = pt.make_ptycho(scan=tuple(cfg["scan"]), roi=tuple(cfg["roi"]), seed=cfg["seed"], rng_seed=cfg["rng_seed"], rng_form=cfg.get("rng_form", "int"),
+                       num_probes=cfg["num_probes"], obj_type=cfg["obj_type"], obj_init=cfg["obj_init"],
+                       val_ratio=cfg["val_ratio"] if val_route == "preprocess" else 0.0, val_mode=cfg["val_mode"] if val_route == "preprocess" else "grid",
+                       ptycho_rng_seed=None if rng_route == "constructor" else (cfg["rng_seed"] ^ 0x5A5A) + 1)
+    if rng_route == "setter":
+        p.rng = pt.make_rng(cfg["rng_seed"], cfg.get("rng_form", "int"))
+    if val_route == "attribute":
+        p.val_ratio = cfg["val_ratio"]
+        p.val_mode = cfg["val_mode"]
+    return p
 
 
 def params_snapshot(p):
@@ -654,8 +671,27 @@ def history_case(ctx, drv, cfg, b):
 
     log = []      # every reconstruct call made on the history object, for the model tie
 
-    def go(p, reset, n_it, keep=False, first=False):
-        rec = pt.record_batches(p, b, num_iters=n_it, freeze=False, reset=reset, loss_type=cfg["loss_type"],
+    routes = list(cfg.get("reset_routes", []))     # how each later reset of the history is requested
+    b_attr = cfg.get("b_route", "argument") == "attribute"
+
+    def reset_and_go(p, n_it):
+        """one reset run through the next route: reconstruct(reset=True) | reset_recon() then reconstruct() |
+        Ptychography.from_ptychography(p) then reconstruct() on the returned object.  Returns (object to go on with, result)."""
+        from quantem.diffractive_imaging.ptychography import Ptychography
+        route = routes.pop(0) if routes else "arg"
+        ctx.dist[f"history:reset route={route}"] += 1
+        if route == "method":
+            p.reset_recon()
+        elif route == "classmethod":
+            p = Ptychography.from_ptychography(p)
+        r = go(p, route == "arg", n_it, keep=True, first=True, route=route)
+        r["route"] = route
+        return p, r
+
+    def go(p, reset, n_it, keep=False, first=False, route=None):
+        if b_attr:
+            p.batch_size = b          # batch size through the attribute, reconstruct(batch_size=None)
+        rec = pt.record_batches(p, None if b_attr else b, num_iters=n_it, freeze=False, reset=reset, loss_type=cfg["loss_type"],
                                 optimizer_params=pt.sgd_params(cfg["lr"], cfg["lr"]), keep_optimizers=(not reset) and not first)
         sched = [(e["iter"], e["val"], e["indices"]) for e in rec]
         n_hist = len(p.iter_losses)
@@ -667,7 +703,7 @@ def history_case(ctx, drv, cfg, b):
                 else:
                     consumed += 1
             it0 = min([e["iter"] for e in rec], default=0)
-            log.append({"reset": reset, "iters": n_it, "b": b, "train_losses": [f2b(e["loss"]) for e in rec if not e["val"]], "val": vals,
+            log.append({"reset": reset, "route": route or "arg", "iters": n_it, "b": b, "train_losses": [f2b(e["loss"]) for e in rec if not e["val"]], "val": vals,
                         "impl": {"schedule": [[e["indices"] for e in rec if not e["val"] and e["iter"] == it0 + k] for k in range(n_it)],
                                  "iter_losses": [float(x) for x in p.iter_losses], "val_losses": [float(x) for x in p.val_iter_losses]}})
         return {"losses": [float(x) for x in p.iter_losses][n_hist - n_it:], "val": [float(x) for x in p.val_iter_losses][-n_it:] if len(p.val_iter_losses) else [],
@@ -679,35 +715,38 @@ def history_case(ctx, drv, cfg, b):
         A = go(p, first_reset, iters, keep=True, first=True)
         runs = []
         if not first_reset:
-            runs.append((0, go(p, True, iters, keep=True)))   # fresh object → run → reset run: must equal the first run
+            p, r = reset_and_go(p, iters)                     # fresh object → run → reset run: must equal the first run
+            runs.append((0, r))
         for k in cfg.get("cont", [1, 2]):
             cont = go(p, False, k, keep=True)
             if cont["n_hist"] != iters + k:
                 ctx.pred_fail("continue-history-length", "continuing without reset does not append to the loss history", dict(case, k=k),
                               observed=cont["n_hist"], required=iters + k)
-            runs.append((k, go(p, True, iters, keep=True)))
-        F = go(build(cfg), rng_first_reset(cfg), iters, first=True)
+            p, r = reset_and_go(p, iters)
+            runs.append((k, r))
+        b_attr = False
+        F = go(build(cfg, canonical=True), rng_first_reset(cfg), iters, first=True)   # constructor seed, preprocess split, batch size by argument
     N = int(p.dset.num_gpts)
     for k, C in runs:
         ctx.count()
         ctx.mark(("history", tuple(cfg["scan"]), tuple(cfg["roi"]), cfg["loss_type"], b, cfg["val_ratio"], cfg["val_mode"], k, cfg.get("rng_form"), cfg.get("seed_size"), cfg.get("first_reset", True)))
         ctx.dist[f"history:val={'0' if cfg['val_ratio'] == 0 else cfg['val_mode']},cont={k}"] += 1
         ctx.dist[f"history:seed={cfg.get('seed_size')}/{cfg.get('rng_form')},first_reset={cfg.get('first_reset', True)}"] += 1
-        ck = dict(case, k=k)
+        ck = dict(case, k=k, reset_route=C.get("route", "arg"))
         if k == 0 and (C["losses"] != A["losses"] or C["val"] != A["val"] or C["sched"] != A["sched"]):
-            ctx.pred_fail("determinism-reset-after-first-run", "fresh seeded object: run WITHOUT reset, then run(reset=True): the reset run's loss history / batch schedule differs from the first run", ck,
+            ctx.pred_fail("determinism-reset-after-first-run", f"fresh seeded object: run WITHOUT reset, then a reset run [{RESET_ROUTES[C.get('route', 'arg')]}]: its loss history / batch schedule differs from the first run", ck,
                           observed={"first": A["losses"], "after_reset": C["losses"], "first_batches": A["sched"][:1], "after_reset_batches": C["sched"][:1],
                                     "rng_seed": cfg["rng_seed"], "rng_form": cfg.get("rng_form")}, required="bit-identical")
             continue
         if C["losses"] != A["losses"] or C["val"] != A["val"]:
-            ctx.pred_fail("determinism-reset-after-continue", f"run(reset={cfg.get('first_reset', True)}), continue {k} iteration(s) without reset, run(reset=True): the reset run's loss history differs from the first run", ck,
+            ctx.pred_fail("determinism-reset-after-continue", f"run(reset={cfg.get('first_reset', True)}), continue {k} iteration(s) without reset, reset run [{RESET_ROUTES[C.get('route', 'arg')]}]: its loss history differs from the first run", ck,
                           observed={"first": A["losses"], "after_continue_and_reset": C["losses"], "val_first": A["val"], "val_after": C["val"]}, required="bit-identical")
         if C["sched"] != A["sched"]:
             i = next((j for j, (x, y) in enumerate(zip(A["sched"], C["sched"])) if x != y), min(len(A["sched"]), len(C["sched"])))
-            ctx.pred_fail("schedule-reset-after-continue", f"after continuing {k} iteration(s) and resetting, the batch schedule of the run differs from that of the first run", ck,
+            ctx.pred_fail("schedule-reset-after-continue", f"after continuing {k} iteration(s) and resetting [{RESET_ROUTES[C.get('route', 'arg')]}], the batch schedule of the run differs from that of the first run", ck,
                           observed={"first_differing_batch": i, "first_run": A["sched"][i:i + 1], "after_reset": C["sched"][i:i + 1]}, required="identical batches in identical order")
         if C["losses"] != F["losses"] or C["sched"] != F["sched"]:
-            ctx.pred_fail("determinism-fresh-vs-history", f"an object after (run, continue {k}, reset) does not reproduce a fresh object built with the same seed", ck,
+            ctx.pred_fail("determinism-fresh-vs-history", f"an object after (run, continue {k}, reset [{RESET_ROUTES[C.get('route', 'arg')]}]) does not reproduce a fresh object built with the same seed (constructor seed, preprocess split, batch size by argument)", ck,
                           observed={"after_history": C["losses"], "fresh": F["losses"]}, required="bit-identical losses and schedule")
     if A["losses"] != F["losses"] or A["sched"] != F["sched"]:
         ctx.pred_fail("determinism-same-seed", "two objects built with the same seed produced different loss histories / schedules", case,
@@ -729,7 +768,7 @@ def history_case(ctx, drv, cfg, b):
     import numpy as np
     table, twin, pos = {}, None, 0
     for r in log:
-        if twin is None or r["reset"]:
+        if twin is None or r["reset"] or r.get("route", "arg") != "arg":
             twin, pos = np.random.default_rng(cfg["rng_seed"]), 0
         perm = []
         if py_nval(N, cfg["val_ratio"]) > 0 and cfg["val_mode"] == "random":
@@ -855,6 +894,10 @@ def rejected_case(ctx, drv, cfg, b, rej, follow_reset):
     ctx.sample({"stream": "rejected", "rejected_call": [kind, value], "outcome": outcome, "b": b, "follow_reset": follow_reset, "next_run_first_epoch": r1["sched"][0]}, limit=8)
 
 
+RESET_ROUTES = {"arg": "reconstruct(reset=True)", "method": "reset_recon() then reconstruct()",
+                "classmethod": "Ptychography.from_ptychography(pt) then reconstruct() on the returned object"}
+
+
 def rng_first_reset(cfg):
     """the fresh comparison object alternates between a first run with and without reset (both must give the same history)"""
     return (cfg["rng_seed"] + cfg["iters"]) % 2 == 0
@@ -863,6 +906,11 @@ def rng_first_reset(cfg):
 def gen_history_cfg(rng, i):
     c = gen_det_cfg(rng)
     c["first_reset"] = (i % 2 == 1)
+    order = [["method", "classmethod", "arg"], ["classmethod", "arg", "method"], ["arg", "method", "classmethod"]][i % 3]
+    c["reset_routes"] = order
+    c["rng_route"] = "setter" if i % 3 == 1 else "constructor"
+    c["val_route"] = "attribute" if i % 4 in (1, 2) else "preprocess"
+    c["b_route"] = "attribute" if i % 5 in (0, 3) else "argument"
     if i % 4 == 0:          # the combination that needs most: a seed that does not fit in 32 bit, first run without reset
         while c["seed_size"] == "small":
             c["rng_seed"], c["rng_form"], c["seed_size"] = pick_seed(rng)
@@ -914,7 +962,7 @@ def run(ctx):
             n = cfg["scan"][0] * cfg["scan"][1]
             guarded(ctx, determinism_case, {"stream": "determinism"}, ctx, cfg, rng.choice([2, 3, 4, 5, 7, n // 2, n - 1]))
         rng = ctx.rng.fork(4)
-        for i in range(ctx.n(8, 32)):
+        for i in range(ctx.n(9, 36)):
             cfg = gen_history_cfg(rng, i)
             n = cfg["scan"][0] * cfg["scan"][1]
             n_train = n - py_nval(n, cfg["val_ratio"])
